@@ -220,4 +220,7 @@ pub fn suites() -> Vec<Suite> {
 }
 
 pub const RULE: &str = "case = factory world (4-9 prefix-sharing native denoms incl. the concatenation-collision quadruple, 0-3 cw20 tokens) + a registry of 0 / 1-9 / 10 / 11-29 / 30 / 31-40 pairs created in generated order and asset order; for EVERY page size in {absent, 1..40} the list is walked continuing after the last pair returned: each page has exactly min(limit or 10, 30, remaining) entries, the walk ends and visits every registered pair exactly once; EVERY registered pair is then used as a continuation cursor as the list returned it (limits absent / 30 / 1 / 7): the page must hold exactly the entries that follow it in the listing order (the order of the page-size-1 walk), compared as a set; cursors with the two assets reversed and the agreement of different walks on the order are probed but only observed; non-trivial = registry of >= 11 pairs (page sizes that do not divide the size are always among the 41 tried); distinct = hash of the tape; the page-size and cursor dimensions are enumerated exhaustively per registry";
-pub const ASSUMPTIONS: &[&str] = &["cw-multi-test chain model; token contract addresses are assigned sequentially (contract3..)"];
+pub const ASSUMPTIONS: &[&str] = &[
+    "cw-multi-test chain model; token contract addresses are assigned sequentially (contract3..)",
+    "'walking with page size L' is read as the usual paging contract: a page holds exactly min(L or 10, 30, remaining) entries, so that a short page means the end of the list; a page shorter than that while entries remain is reported",
+];
